@@ -218,6 +218,36 @@ fn run_inner(sc: &J) -> Result<Option<String>, String> {
             }
             Ok(None)
         }
+        // C02/C16: serde block writers. `value` (JSON) is serialized under `schema` with `target_block_size`; the bytes
+        // must decode with the generic decoder as exactly one datum, consume all bytes, and every array keeps its length;
+        // the returned count must equal the bytes emitted.
+        "serde_blocks" => {
+            let schema = Schema::parse_str(sc["schema"].as_str().ok_or("schema")?).map_err(|e| e.to_string())?;
+            let value = sc["value"].clone();
+            let w = match sc["target_block_size"].as_u64() {
+                Some(t) => apache_avro::writer::datum::GenericDatumWriter::builder(&schema).target_block_size(t as usize).build(),
+                None => apache_avro::writer::datum::GenericDatumWriter::builder(&schema).build(),
+            }.map_err(|e| e.to_string())?;
+            let mut out = Vec::new();
+            let n = w.write_ser(&mut out, &value).map_err(|e| e.to_string())?;
+            if n != out.len() { return Ok(Some(format!("write_ser returned {n} but emitted {} bytes {:02x?}", out.len(), out))); }
+            let mut rd = &out[..];
+            match apache_avro::from_avro_datum(&schema, &mut rd, None) {
+                Ok(v) => {
+                    if !rd.is_empty() { return Ok(Some(format!("generic decoder left {} bytes of {:02x?}", rd.len(), out))); }
+                    fn count(j: &J, v: &Value) -> Option<String> {
+                        match (j, v) {
+                            (J::Array(a), Value::Array(b)) => { if a.len() != b.len() { return Some(format!("array of {} items decodes to {} items", a.len(), b.len())); } a.iter().zip(b).find_map(|(x, y)| count(x, y)) }
+                            (J::Object(a), Value::Record(b)) => a.values().zip(b.iter()).find_map(|(x, (_, y))| count(x, y)),
+                            (J::Object(a), Value::Map(b)) => if a.len() != b.len() { Some(format!("map of {} entries decodes to {}", a.len(), b.len())) } else { None },
+                            _ => None,
+                        }
+                    }
+                    Ok(count(&value, &v).map(|m| format!("{m}; bytes {:02x?}", out)))
+                }
+                Err(e) => Ok(Some(format!("generic decoder rejects the serde bytes {:02x?}: {e}", out))),
+            }
+        }
         k => Err(format!("unknown scenario kind {k:?}")),
     }
 }
